@@ -768,21 +768,25 @@ func c03Resolve(v ssa.Value) ssa.Value {
 	return v
 }
 
-func c03R5(c *Ctx) {
-	c.Doc("C03-R5", "a scoped entry is verified against the scope that was probed, and that scope contains the client: scopedLookup hashes CacheKey{Scope: s} and returns that same s = clientPrefix.Addr().Prefix(bits); ServeDNS hands handleCacheHit the entry and the scope of the same scopedLookup call (the zero prefix with checkCache); WriteMsg files a scoped answer under the hash of the scope it passes to SetFromResponseScoped, and reaches the shared-key store only when the request had no usable ECS scope or the response carried no SCOPE")
-	hash := c.fobj("C03-R5", c03Pkg+".CacheKey.Hash")
-	scopedLookup := c.fobj("C03-R5", c03Pkg+".(*Cache).scopedLookup")
-	checkCache := c.fobj("C03-R5", c03Pkg+".(*Cache).checkCache")
-	hch := c.fobj("C03-R5", c03Pkg+".(*Cache).handleCacheHit")
-	lbk := c.fobj("C03-R5", c03Pkg+".(*Store).LookupByKey")
-	addrPrefix := c.fobj("C03-R5", "net/netip.Addr.Prefix")
-	prefAddr := c.fobj("C03-R5", "net/netip.Prefix.Addr")
-	setScoped := c.fobj("C03-R5", c03Pkg+".(*Store).SetFromResponseScoped")
+func c03R5(c *Ctx) { c03R5as(c, "C03-R5") }
+
+// c03R5as runs the rule under the given rule id (the clause "a scoped answer is served only
+// inside its scope" is claimed by C03 and by C19).
+func c03R5as(c *Ctx, R string) {
+	c.Doc(R, "a scoped entry is verified against the scope that was probed, and that scope contains the client: scopedLookup hashes CacheKey{Scope: s} and returns that same s = clientPrefix.Addr().Prefix(bits); ServeDNS hands handleCacheHit the entry and the scope of the same scopedLookup call (the zero prefix with checkCache); WriteMsg files a scoped answer under the hash of the scope it passes to SetFromResponseScoped, and reaches the shared-key store only when the request had no usable ECS scope or the response carried no SCOPE")
+	hash := c.fobj(R, c03Pkg+".CacheKey.Hash")
+	scopedLookup := c.fobj(R, c03Pkg+".(*Cache).scopedLookup")
+	checkCache := c.fobj(R, c03Pkg+".(*Cache).checkCache")
+	hch := c.fobj(R, c03Pkg+".(*Cache).handleCacheHit")
+	lbk := c.fobj(R, c03Pkg+".(*Store).LookupByKey")
+	addrPrefix := c.fobj(R, "net/netip.Addr.Prefix")
+	prefAddr := c.fobj(R, "net/netip.Prefix.Addr")
+	setScoped := c.fobj(R, c03Pkg+".(*Store).SetFromResponseScoped")
 	if hash == nil || scopedLookup == nil || checkCache == nil || hch == nil || lbk == nil || addrPrefix == nil || prefAddr == nil || setScoped == nil {
 		return
 	}
 	// (a) scopedLookup
-	if fn := c.fn("C03-R5", c03Pkg+".(*Cache).scopedLookup"); fn != nil {
+	if fn := c.fn(R, c03Pkg+".(*Cache).scopedLookup"); fn != nil {
 		isProbe := func(e *Expr) bool {
 			e = strip(e)
 			if e == nil || !ResultOf(0, addrPrefix)(e) {
@@ -801,15 +805,15 @@ func c03R5(c *Ctx) {
 		n := 0
 		for _, in := range instrsWhere(fn, isPlainCallTo(lbk)) {
 			n++
-			key := "C03-R5|scopedLookup|probe"
+			key := R + "|scopedLookup|probe"
 			hc, _ := callArg(in, 1).(*ssa.Call)
 			if hc == nil || !callIs(&hc.Call, hash) {
-				c.violation("C03-R5", key, instrPos(in), "LookupByKey key is not CacheKey{…}.Hash()")
+				c.violation(R, key, instrPos(in), "LookupByKey key is not CacheKey{…}.Hash()")
 				continue
 			}
 			sv := c03KeyLitField(hc, "Scope")
 			if sv == nil || !isProbe(Desc(sv)) {
-				c.violation("C03-R5", key, instrPos(in), "the probed key's Scope is not clientPrefix.Addr().Prefix(bits): a scope that does not contain the client could be probed")
+				c.violation(R, key, instrPos(in), "the probed key's Scope is not clientPrefix.Addr().Prefix(bits): a scope that does not contain the client could be probed")
 				continue
 			}
 			// every non-zero returned scope is that same value
@@ -831,31 +835,31 @@ func c03R5(c *Ctx) {
 					}
 				}
 				bad = true
-				c.violation("C03-R5", key, instrPos(ret), "scopedLookup returns a scope other than the one it hashed: the hit would be verified against a scope that was not probed")
+				c.violation(R, key, instrPos(ret), "scopedLookup returns a scope other than the one it hashed: the hit would be verified against a scope that was not probed")
 			}
 			if !bad {
-				c.ok("C03-R5", key, instrPos(in), "probe scope = clientPrefix.Addr().Prefix(bits); hashed and returned scope are the same value")
+				c.ok(R, key, instrPos(in), "probe scope = clientPrefix.Addr().Prefix(bits); hashed and returned scope are the same value")
 			}
 		}
 		if n == 0 {
-			c.unresolved("C03-R5", "scopedLookup", "no LookupByKey call found")
+			c.unresolved(R, "scopedLookup", "no LookupByKey call found")
 		}
 	}
 	// (b) ServeDNS → handleCacheHit pairing
-	if fn := c.fn("C03-R5", c03Pkg+".(*Cache).ServeDNS"); fn != nil {
+	if fn := c.fn(R, c03Pkg+".(*Cache).ServeDNS"); fn != nil {
 		for _, in := range instrsWhere(fn, isPlainCallTo(hch)) {
 			ent := c03Resolve(callArg(in, 3))
 			sc := c03Resolve(callArg(in, 5))
 			ky := c03Resolve(callArg(in, 4))
-			key := "C03-R5|ServeDNS|handleCacheHit(entry, key, scope)"
+			key := R + "|ServeDNS|handleCacheHit(entry, key, scope)"
 			if ex, ok := ent.(*ssa.Extract); ok {
 				if cl, ok := ex.Tuple.(*ssa.Call); ok && callIs(&cl.Call, scopedLookup) && ex.Index == 0 {
 					sx, ok1 := sc.(*ssa.Extract)
 					kx, ok2 := ky.(*ssa.Extract)
 					if ok1 && ok2 && sx.Tuple == cl && sx.Index == 2 && kx.Tuple == cl && kx.Index == 1 {
-						c.ok("C03-R5", key, instrPos(in), "scoped hit: entry, key and scope come from the same scopedLookup call")
+						c.ok(R, key, instrPos(in), "scoped hit: entry, key and scope come from the same scopedLookup call")
 					} else {
-						c.violation("C03-R5", key, instrPos(in), "scoped hit is verified against a scope/key that is not the one scopedLookup probed")
+						c.violation(R, key, instrPos(in), "scoped hit is verified against a scope/key that is not the one scopedLookup probed")
 					}
 					continue
 				}
@@ -873,50 +877,61 @@ func c03R5(c *Ctx) {
 					}
 				}
 				if zero && Desc(ky).String() == Desc(cl.Call.Args[1]).String() {
-					c.ok("C03-R5", key, instrPos(in), "shared hit: verified against the zero scope and the probed key")
+					c.ok(R, key, instrPos(in), "shared hit: verified against the zero scope and the probed key")
 				} else {
-					c.violation("C03-R5", key, instrPos(in), "shared-key hit is not verified against the zero (shared) scope: "+Desc(sc).String())
+					c.violation(R, key, instrPos(in), "shared-key hit is not verified against the zero (shared) scope: "+Desc(sc).String())
 				}
 				continue
 			}
-			c.violation("C03-R5", key, instrPos(in), "handleCacheHit entry does not come from scopedLookup/checkCache: "+trunc(Desc(ent).String(), 120))
+			c.violation(R, key, instrPos(in), "handleCacheHit entry does not come from scopedLookup/checkCache: "+trunc(Desc(ent).String(), 120))
 		}
 	}
 	// (c) WriteMsg: scope stored == scope hashed
-	if fn := c.fn("C03-R5", c03Pkg+".(*ResponseWriter).WriteMsg"); fn != nil {
+	if fn := c.fn(R, c03Pkg+".(*ResponseWriter).WriteMsg"); fn != nil {
 		n := 0
-		for _, in := range instrsWhere(fn, isPlainCallTo(setScoped)) {
+		// the scoped insert may have been extracted into an unexported helper of WriteMsg
+		var inserts []ssa.Instruction
+		for _, g := range scopeFuncs(fn) {
+			for _, in := range instrsWhere(g, isPlainCallTo(setScoped)) {
+				if in.Parent() == g {
+					inserts = append(inserts, in)
+				}
+			}
+		}
+		for _, in := range inserts {
 			n++
-			key := "C03-R5|WriteMsg|SetFromResponseScoped(key, scope)"
+			key := R + "|WriteMsg|SetFromResponseScoped(key, scope)"
 			hc, _ := callArg(in, 1).(*ssa.Call)
 			if hc == nil || !callIs(&hc.Call, hash) {
-				c.violation("C03-R5", key, instrPos(in), "scoped key is not CacheKey{…}.Hash()")
+				c.violation(R, key, instrPos(in), "scoped key is not CacheKey{…}.Hash()")
 				continue
 			}
 			if sv := c03KeyLitField(hc, "Scope"); sv != nil && sv == callArg(in, 3) {
-				c.ok("C03-R5", key, instrPos(in), "the entry is filed under the hash of the very scope it will carry")
+				c.ok(R, key, instrPos(in), "the entry is filed under the hash of the very scope it will carry")
 			} else {
-				c.violation("C03-R5", key, instrPos(in), "the scope handed to SetFromResponseScoped is not the scope the key was hashed from: the entry is reachable by one audience and verified as another")
+				c.violation(R, key, instrPos(in), "the scope handed to SetFromResponseScoped is not the scope the key was hashed from: the entry is reachable by one audience and verified as another")
 			}
 		}
 		if n == 0 {
-			c.unresolved("C03-R5", "WriteMsg", "no SetFromResponseScoped call found")
+			c.unresolved(R, "WriteMsg", "no SetFromResponseScoped call found")
 		}
 	}
 	// (d) an answer the authority scoped is never filed under the shared key
-	readScope := c.fobj("C03-R5", "internal/ecs.ReadResponseScope")
-	setShared := c.fobj("C03-R5", c03Pkg+".(*Store).SetFromResponseWithKey")
-	clientScopeF := c.field("C03-R5", c03Pkg+".ResponseWriter.clientScope")
-	isValid := c.fobj("C03-R5", "net/netip.Prefix.IsValid")
-	if fn := c.fn("C03-R5", c03Pkg+".(*ResponseWriter).WriteMsg"); fn != nil && readScope != nil && setShared != nil && clientScopeF != nil && isValid != nil {
-		c.MustCross("C03-R5", fn, "shared-key store", isPlainCallTo(setShared),
+	readScope := c.fobj(R, "internal/ecs.ReadResponseScope")
+	setShared := c.fobj(R, c03Pkg+".(*Store).SetFromResponseWithKey")
+	clientScopeF := c.field(R, c03Pkg+".ResponseWriter.clientScope")
+	isValid := c.fobj(R, "net/netip.Prefix.IsValid")
+	if fn := c.fn(R, c03Pkg+".(*ResponseWriter).WriteMsg"); fn != nil && readScope != nil && setShared != nil && clientScopeF != nil && isValid != nil {
+		c.MustCross(R, fn, "shared-key store", isPlainCallTo(setShared),
 			OnFalse("clientScope.IsValid()", func(e *Expr) bool {
 				e = strip(e)
 				return CallTo(isValid)(e) && len(e.Args) == 1 && FieldIs(clientScopeF)(e.Args[0])
 			}),
 			OnFalse("ReadResponseScope ok", ResultOf(1, readScope)))
 	}
-	c.Floor("C03-R5", 1+4+1+2)
+	// one probe, four hit verifications, one scoped insert and at least ONE shared-key store (today's tree has
+	// two textually identical shared arms; merging them into a fall-through tail is a refactoring)
+	c.Floor(R, 1+4+1+1)
 }
 
 // ---------------------------------------------------------------------------
